@@ -7,6 +7,7 @@ package tokenV2
 // Injected with `go test -overlay`; nothing is written into /repo.
 
 import (
+	"crypto"
 	"crypto/ecdsa"
 	"crypto/ed25519"
 	"crypto/elliptic"
@@ -108,7 +109,8 @@ type vSig struct {
 	signAlg  jwa.SignatureAlgorithm // algorithm actually used ("" = none: empty signature)
 	signKey  interface{}
 	unprot   map[string]interface{}
-	forceSig string // when set: the signature value to serialise (not computed)
+	forceSig string                    // when set: the signature value to serialise (not computed)
+	signFn   func(input []byte) []byte // when set: computes the signature value (hand-made signatures)
 	// filled by sign()
 	protB64 string
 	sigB64  string
@@ -121,6 +123,10 @@ func (s *vSig) sign(payloadB64 string) {
 	s.sigB64 = ""
 	if s.forceSig != "" {
 		s.sigB64 = s.forceSig
+		return
+	}
+	if s.signFn != nil {
+		s.sigB64 = vEnc.EncodeToString(s.signFn([]byte(s.protB64 + "." + payloadB64)))
 		return
 	}
 	if s.signAlg == "" {
@@ -275,6 +281,71 @@ func vHostile(r *rand.Rand, b vBase, nFlips int) []vVariant {
 			s.signAlg = a
 			add("alg-proper-"+string(a), "alg-proper", "signer", vCompact(s, b.payload), a)
 		}
+	}
+
+	// 3b. an ECDSA algorithm that does NOT fit the key's curve, PROPERLY signed with the private key (hash of the named
+	// algorithm, the key's own curve): "mismatching curve". r||s in the key's coordinate size and in the algorithm's.
+	if ecPriv, ok := b.signer.priv.(*ecdsa.PrivateKey); ok {
+		keyBytes := (ecPriv.Curve.Params().BitSize + 7) / 8
+		for _, a := range []struct {
+			alg  string
+			hash crypto.Hash
+			size int
+		}{{"ES256", crypto.SHA256, 32}, {"ES384", crypto.SHA384, 48}, {"ES512", crypto.SHA512, 66}} {
+			if a.alg == natural {
+				continue
+			}
+			a := a
+			for _, half := range []int{keyBytes, a.size} {
+				half := half
+				s = b.sigFor(b.signer)
+				s.hdr["alg"] = a.alg
+				s.signFn = func(input []byte) []byte {
+					h := a.hash.New()
+					h.Write(input)
+					r, ss, err := ecdsa.Sign(crand.Reader, ecPriv, h.Sum(nil))
+					if err != nil {
+						return nil
+					}
+					out := make([]byte, 2*half)
+					rb, sb := r.Bytes(), ss.Bytes()
+					if len(rb) > half || len(sb) > half {
+						return nil
+					}
+					copy(out[half-len(rb):half], rb)
+					copy(out[2*half-len(sb):], sb)
+					return out
+				}
+				add(fmt.Sprintf("alg-curve-mismatch-%s-signed-halves%d", a.alg, half), "alg-curve-mismatch", "signer", vCompact(s, b.payload), a.alg)
+			}
+		}
+	}
+
+	// 3c. an embedded public jwk that carries an `alg` member of its own (RFC 7517 4.4) different from the header alg: a
+	// consumer that verifies with the KEY's alg while allow-listing the HEADER's alg accepts a MAC keyed with public bytes
+	{
+		withAlg := func(alg string) jwk.Key { j := b.signer.pubJWK(); _ = j.Set(jwk.AlgorithmKey, alg); return j }
+		for _, hs := range []jwa.SignatureAlgorithm{jwa.HS256, jwa.HS512} {
+			for _, n := range encNames {
+				s = b.sigFor(b.signer)
+				s.hdr["jwk"] = withAlg(string(hs))
+				s.signAlg, s.signKey = hs, encs[n]
+				add("jwk-alg-"+string(hs)+"-mac-secret-"+n, "jwk-alg-hmac", "nobody", vCompact(s, b.payload), natural)
+			}
+		}
+		if _, ok := b.signer.priv.(*rsa.PrivateKey); ok { // header PS*, key says RS256, RS256 signature by the real key
+			s = b.sigFor(b.signer)
+			s.hdr["jwk"] = withAlg("RS256")
+			s.signAlg = jwa.RS256
+			add("jwk-alg-RS256-header-"+natural, "jwk-alg-mismatch", "nobody", vCompact(s, b.payload), natural)
+		}
+		s = b.sigFor(b.signer)
+		s.hdr["jwk"] = withAlg("none")
+		s.signAlg = ""
+		add("jwk-alg-none-empty-sig", "jwk-alg-hmac", "nobody", vCompact(s, b.payload), natural)
+		s = b.sigFor(b.signer)
+		s.hdr["jwk"] = withAlg(natural)
+		add("jwk-alg-same-as-header", "embed-jwk-pub-legit", "signer", vCompact(s, b.payload), natural)
 	}
 
 	// 4. number of signatures (JSON serialisation)
